@@ -22,8 +22,13 @@ Step == CASE e.op = "@" -> Restart
           [] e.op = "foreach" -> Foreach(e.a[1], e.a[2], Drop(e.a, 3))
           [] e.op = "sanitise" -> Sanitise
           [] e.op = "corrupt" -> Corrupt(e.a[1], e.a[2])
+          [] e.op = "default" -> Default(e.a[1])
+          [] e.op = "compare" -> Compare(e.a[1], e.a[2])
+          [] e.op = "mcopy" -> MCopy(e.a[1], e.a[2])
+          [] e.op = "userinit" -> UserInit(Drop(e.a, 1))
+          [] e.op = "hexstr" -> HexStr(e.a[1], Drop(e.a, 2))
           [] OTHER -> FALSE
-Unchecked(x) == x.op = "corrupt" \/ (x.op \in {"set", "sweep16"} /\ x.a[2] = 1)       \* out-of-band or unchecked modification
+Unchecked(x) == x.op \in {"corrupt", "mcopy", "hexstr"} \/ (x.op \in {"set", "sweep16"} /\ x.a[2] = 1)       \* out-of-band or unchecked modification
 TNext == /\ l <= Len(TraceLog) /\ l' = l + 1 /\ Step
          /\ dirty' = (IF e.op \in {"sanitise", "tinit", "@"} THEN FALSE ELSE dirty \/ Unchecked(e))
          /\ (e.op # "@" => e.o \in ev'.alts /\ e.asan = 0)
